@@ -1,0 +1,79 @@
+//! Verification hooks (compiled only with `--cfg ndarray_stats_verif`).
+//!
+//! A thread-local pivot script lets a test harness drive the randomized
+//! selection routines through a chosen sequence of pivot choices, and a
+//! thread-local log records every pivot actually used.
+use std::cell::RefCell;
+
+/// What to do when the script has no more entries.
+#[derive(Clone, Copy, Debug, PartialEq, Eq)]
+pub enum Fallback {
+    /// Use the pivot drawn by the random generator.
+    Drawn,
+    /// Always use position 0.
+    First,
+    /// Always use position `n - 1`.
+    Last,
+    /// Always use position `n / 2`.
+    Middle,
+}
+
+struct State {
+    script: Vec<usize>,
+    cursor: usize,
+    fallback: Fallback,
+    log: Vec<(usize, usize)>,
+}
+
+thread_local! {
+    static STATE: RefCell<State> = RefCell::new(State {
+        script: Vec::new(),
+        cursor: 0,
+        fallback: Fallback::Drawn,
+        log: Vec::new(),
+    });
+}
+
+/// Installs a pivot script (entries are reduced modulo the window length when
+/// used) and clears the log.
+pub fn set_script(script: Vec<usize>, fallback: Fallback) {
+    STATE.with(|s| {
+        let mut s = s.borrow_mut();
+        s.script = script;
+        s.cursor = 0;
+        s.fallback = fallback;
+        s.log.clear();
+    })
+}
+
+/// Removes any script and returns the log of `(window length, pivot used)`.
+pub fn take_log() -> Vec<(usize, usize)> {
+    STATE.with(|s| {
+        let mut s = s.borrow_mut();
+        s.script.clear();
+        s.cursor = 0;
+        s.fallback = Fallback::Drawn;
+        std::mem::take(&mut s.log)
+    })
+}
+
+/// Called right after the library draws a pivot for a window of length `n`.
+pub fn pivot(n: usize, drawn: usize) -> usize {
+    STATE.with(|s| {
+        let mut s = s.borrow_mut();
+        let used = if s.cursor < s.script.len() {
+            let v = s.script[s.cursor] % n;
+            s.cursor += 1;
+            v
+        } else {
+            match s.fallback {
+                Fallback::Drawn => drawn,
+                Fallback::First => 0,
+                Fallback::Last => n - 1,
+                Fallback::Middle => n / 2,
+            }
+        };
+        s.log.push((n, used));
+        used
+    })
+}
